@@ -9,6 +9,7 @@ import (
 	"fmt"
 	"io"
 	"os"
+	"runtime/debug"
 	"time"
 
 	"github.com/cloudwego/kitex/pkg/klog"
@@ -27,6 +28,20 @@ func runWithWatchdog(eng engine, raw json.RawMessage) (interface{}, error) {
 	}
 	ch := make(chan ret, 1)
 	go func() {
+		// a panic of the code under test on the engine's own goroutine is an observation of this case, not a failure of the run
+		defer func() {
+			if p := recover(); p != nil {
+				var hdr struct {
+					ID int `json:"id"`
+				}
+				_ = json.Unmarshal(raw, &hdr)
+				st := string(debug.Stack())
+				if len(st) > 3000 {
+					st = st[:3000]
+				}
+				ch <- ret{map[string]interface{}{"id": hdr.ID, "engine_panic": fmt.Sprint(p), "stack": st}, nil}
+			}
+		}()
 		o, e := eng(raw)
 		ch <- ret{o, e}
 	}()
